@@ -26,6 +26,15 @@ import (
 // right position; it does not order the assignments (the path-sensitive E1 obligations do that where it matters).
 func RunArgSources(c *Ctx, rule, fn, callee string, argIdx int, allowed []string, why string) {
 	c.helpers()
+	roleCtxFn = fn
+	if roleByObj == nil {
+		roleByObj = map[*types.Func]*FuncInfo{}
+		for _, fi := range c.P.Funcs {
+			if fi.Obj != nil && fi.Lit == nil {
+				roleByObj[fi.Obj] = fi
+			}
+		}
+	}
 	n := 0
 	for _, fi := range c.P.Funcs {
 		if fi.Body == nil || fi.Ctl {
@@ -79,7 +88,12 @@ func exprSources(c *Ctx, fi *FuncInfo, e ast.Expr, out, seen map[string]bool, de
 		return
 	}
 	if tv, ok := info.Types[e]; ok && tv.Value != nil {
-		out["const:"+tv.Value.ExactString()] = true
+		switch tv.Value.ExactString() {
+		case `""`, "0", "false":
+			out["zero"] = true // the zero value, however it is spelled
+		default:
+			out["const:"+tv.Value.ExactString()] = true
+		}
 		return
 	}
 	switch x := e.(type) {
@@ -88,7 +102,7 @@ func exprSources(c *Ctx, fi *FuncInfo, e ast.Expr, out, seen map[string]bool, de
 			exprSources(c, fi, x.Args[0], out, seen, depth+1) // conversion
 			return
 		}
-		out[calleeLabel(info, x)+"#0"] = true
+		resultSources(c, info, x, 0, out, seen, depth)
 		return
 	case *ast.Ident, *ast.SelectorExpr:
 		path := types.ExprString(e)
@@ -113,15 +127,32 @@ func exprSources(c *Ctx, fi *FuncInfo, e ast.Expr, out, seen map[string]bool, de
 		// parameter of the enclosing declaration (or of an enclosing function, for a literal)
 		if pf := paramOwner(fi, v); pf != nil {
 			resolved := false
-			if _, isSel := e.(*ast.SelectorExpr); !isSel && canonSingleCaller != nil && pf.Obj != nil {
-				if h := c.helpers()[pf.Obj]; h != nil { // a helper the validated tree does not have
-					if caller, site := canonSingleCaller(pf); caller != nil && site != nil && pf.Sig != nil && !pf.Sig.Variadic() {
-						for i := 0; i < pf.Sig.Params().Len(); i++ {
-							if pf.Sig.Params().At(i) == v && i < len(site.Args) {
-								exprSources(c, caller, site.Args[i], out, seen, depth+1)
-								resolved = true
-							}
+			if _, isSel := e.(*ast.SelectorExpr); !isSel && pf.Obj != nil && pf.Sig != nil && !pf.Sig.Variadic() {
+				if h := c.helpers()[pf.Obj]; h != nil && !h.escapes { // a helper the validated tree does not have
+					idx := -1
+					for i := 0; i < pf.Sig.Params().Len(); i++ {
+						if pf.Sig.Params().At(i) == v {
+							idx = i
 						}
+					}
+					// context-sensitive: the call sites that belong to the function the rule is about
+					for _, caller := range c.P.Funcs {
+						if idx < 0 || caller.Body == nil || caller.Ctl || (caller.Root().Name != roleCtxFn && !contains(c.attributed(caller), roleCtxFn)) {
+							continue
+						}
+						cinfo := caller.Pkg.TypesInfo
+						ast.Inspect(caller.Body, func(nd ast.Node) bool {
+							if lit, ok := nd.(*ast.FuncLit); ok && lit != caller.Lit {
+								return false
+							}
+							if call, ok := nd.(*ast.CallExpr); ok && idx < len(call.Args) {
+								if f, _ := typeutil.Callee(cinfo, call).(*types.Func); f != nil && f.Origin() == pf.Obj {
+									exprSources(c, caller, call.Args[idx], out, seen, depth+1)
+									resolved = true
+								}
+							}
+							return true
+						})
 					}
 				}
 			}
@@ -179,7 +210,7 @@ func scanAssignments(c *Ctx, top *FuncInfo, path string, v *types.Var, out, seen
 					}
 					switch r := unparen(s.Rhs[0]).(type) {
 					case *ast.CallExpr:
-						out[fmt.Sprintf("%s#%d", calleeLabel(info, r), i)] = true
+						resultSources(c, info, r, i, out, seen, depth)
 					default:
 						out[fmt.Sprintf("multi:%s#%d", types.ExprString(r), i)] = true
 					}
@@ -197,7 +228,7 @@ func scanAssignments(c *Ctx, top *FuncInfo, path string, v *types.Var, out, seen
 					exprSources(c, top, s.Values[i], out, seen, depth+1)
 				default:
 					if call, ok := unparen(s.Values[0]).(*ast.CallExpr); ok {
-						out[fmt.Sprintf("%s#%d", calleeLabel(info, call), i)] = true
+						resultSources(c, info, call, i, out, seen, depth)
 					}
 				}
 			}
@@ -271,3 +302,67 @@ func paramOwner(fi *FuncInfo, v *types.Var) *FuncInfo {
 	return nil
 }
 
+
+var (
+	roleCtxFn string
+	roleByObj map[*types.Func]*FuncInfo
+)
+
+// resultSources: the sources of result i of a call.  A function of the validated tree is a source of its own
+// ("f#i"); a helper the validated tree does not have is looked into: the sources of what its return statements hand back.
+func resultSources(c *Ctx, info *types.Info, call *ast.CallExpr, i int, out, seen map[string]bool, depth int) {
+	label := fmt.Sprintf("%s#%d", calleeLabel(info, call), i)
+	f, _ := typeutil.Callee(info, call).(*types.Func)
+	if f == nil || depth > 8 {
+		out[label] = true
+		return
+	}
+	h := roleByObj[f.Origin()]
+	if h == nil || h.Body == nil || h.Sig == nil || c.helpers()[h.Obj] == nil {
+		out[label] = true
+		return
+	}
+	key := fmt.Sprintf("ret|%p|%d", h, i)
+	if seen[key] {
+		return
+	}
+	seen[key] = true
+	nres := h.Sig.Results().Len()
+	found := false
+	ast.Inspect(h.Body, func(nd ast.Node) bool {
+		if _, ok := nd.(*ast.FuncLit); ok {
+			return false
+		}
+		rs, ok := nd.(*ast.ReturnStmt)
+		if !ok {
+			return true
+		}
+		found = true
+		// the other results of an error return are not used by callers that examine the error (E5.R-examined)
+		if last := nres - 1; last > 0 && i != last && len(rs.Results) == nres && isErrorType(h.Sig.Results().At(last).Type()) {
+			if id, ok := unparen(rs.Results[last]).(*ast.Ident); !ok || id.Name != "nil" {
+				return true
+			}
+		}
+		switch {
+		case len(rs.Results) == nres && i < nres:
+			exprSources(c, h, rs.Results[i], out, seen, depth+1)
+		case len(rs.Results) == 1 && nres > 1:
+			if inner, ok := unparen(rs.Results[0]).(*ast.CallExpr); ok {
+				resultSources(c, h.Pkg.TypesInfo, inner, i, out, seen, depth+1)
+			} else {
+				out[label] = true
+			}
+		case len(rs.Results) == 0 && i < nres && h.Sig.Results().At(i).Name() != "":
+			r := h.Sig.Results().At(i)
+			scanAssignments(c, h, r.Name(), r, out, seen, depth+1)
+			out["zero"] = true // a named result starts at its zero value
+		default:
+			out[label] = true
+		}
+		return true
+	})
+	if !found {
+		out[label] = true
+	}
+}
